@@ -87,6 +87,9 @@ type Harness struct {
 	// explorer records it and keeps extending the path instead of pruning it, so a known defect in
 	// a return value does not hide the space behind it.
 	Benign func(key string) bool
+	// MultiProcess spreads the exploration over child processes (see ProcFor): set it for
+	// harnesses whose instances mmap files or are otherwise syscall-bound.
+	MultiProcess bool
 }
 
 // Violation is a property violation found on the real code.
@@ -132,6 +135,8 @@ type Check struct {
 	deadline        time.Time
 	knownOnce       sync.Once
 	known           map[string]knownFinding
+	procSeq         int
+	pool            *pool
 }
 
 // NewCheck reads VERIF_TIER / VERIF_SEED / VERIF_DIR / VERIF_DEADLINE_S from the environment.
@@ -342,6 +347,12 @@ func (c *Check) loadKnown() map[string]knownFinding {
 // Finish writes evidence/<id>.json, replay files, the result file for the driver, and returns the
 // process exit code (0 ok / only known findings, 1 unlisted violation).
 func (c *Check) Finish() int {
+	if IsChild() {
+		os.Exit(0) // a ProcFor worker has nothing to report itself
+	}
+	if c.pool != nil {
+		c.pool.close()
+	}
 	c.mu.Lock()
 	defer c.mu.Unlock()
 	known := c.loadKnown()
@@ -515,132 +526,6 @@ func Guard(f func()) (panicked string) {
 	return ""
 }
 
-// ---------------------------------------------------------------------------------------------
-// Phase A: stateless exhaustive enumeration of all sequences of length depth (every shorter
-// sequence is a prefix). A path is not extended beyond its first violation.
-
-func (c *Check) RunDFS(h *Harness, depth int) {
-	A := h.Alphabet
-	if depth < 1 || len(A) == 0 {
-		return
-	}
-	c.Bound("phaseA_depth", depth)
-	c.Bound("alphabet_size", len(A))
-	// violating prefixes: set of encoded prefixes at which a violation was found (shared).
-	var badMu sync.RWMutex
-	bad := map[string]struct{}{}
-	enc := func(idx []int) string {
-		b := make([]byte, 0, len(idx)*2)
-		for _, i := range idx {
-			b = append(b, byte(i>>8), byte(i))
-		}
-		return string(b)
-	}
-	// shard on the first two choices
-	d0 := 1
-	if depth >= 2 {
-		d0 = 2
-	}
-	nshard := 1
-	for i := 0; i < d0; i++ {
-		nshard *= len(A)
-	}
-	var seqs, trans int64
-	ParallelFor(nshard, func(s int) {
-		idx := make([]int, depth)
-		// decode shard -> first d0 choices
-		x := s
-		for i := d0 - 1; i >= 0; i-- {
-			idx[i] = x % len(A)
-			x /= len(A)
-		}
-		for {
-			if c.Expired() {
-				return
-			}
-			// skip if some prefix is already known bad
-			skipAt := -1
-			badMu.RLock()
-			if len(bad) > 0 {
-				for l := 1; l <= depth; l++ {
-					if _, ok := bad[enc(idx[:l])]; ok {
-						skipAt = l
-						break
-					}
-				}
-			}
-			badMu.RUnlock()
-			failAt := -1
-			if skipAt < 0 {
-				inst := h.New()
-				path := make([]Op, 0, depth)
-				var got, want string
-				pan := Guard(func() {
-					for l := 0; l < depth; l++ {
-						path = append(path, A[idx[l]])
-						got, want = inst.Apply(A[idx[l]])
-						atomic.AddInt64(&trans, 1)
-						if got != want {
-							if c.tolerated(h, path, got, want) {
-								continue
-							}
-							failAt = l + 1
-							return
-						}
-					}
-				})
-				if pan != "" {
-					failAt = len(path)
-					got, want = pan, "no panic"
-				}
-				if failAt > 0 {
-					p := append([]Op(nil), path[:failAt]...)
-					key := classify(h, p, got, want)
-					c.Violate(key, p, got, want)
-					badMu.Lock()
-					bad[enc(idx[:failAt])] = struct{}{}
-					badMu.Unlock()
-				} else {
-					fp := inst.Fingerprint()
-					if fp == "" {
-						fp = enc(idx)
-					}
-					c.Distinct(fp)
-					c.Outcome(got)
-					if atomic.LoadInt64(&seqs)%4096 == 0 {
-						c.Sample(PathString(path))
-					}
-				}
-				Guard(inst.Close)
-				atomic.AddInt64(&seqs, 1)
-				skipAt = failAt
-			}
-			// advance odometer on positions >= d0; when skipping at prefix length L, bump position L-1.
-			pos := depth - 1
-			if skipAt > 0 {
-				pos = skipAt - 1
-				for j := pos + 1; j < depth; j++ {
-					idx[j] = 0
-				}
-			}
-			for pos >= d0 {
-				idx[pos]++
-				if idx[pos] < len(A) {
-					break
-				}
-				idx[pos] = 0
-				pos--
-			}
-			if pos < d0 {
-				return
-			}
-		}
-	})
-	c.AddEval(seqs)
-	c.AddTransitions(trans)
-	c.Extra("phaseA_sequences", seqs)
-}
-
 // tolerated: the mismatch is a listed known finding that the harness declares benign (state in
 // sync); it is recorded (so the KNOWN-FINDING line is printed) and exploration continues.
 func (c *Check) tolerated(h *Harness, path []Op, got, want string) bool {
@@ -673,120 +558,6 @@ func classify(h *Harness, p []Op, got, want string) string {
 		return h.Key(p, got, want)
 	}
 	return p[len(p)-1].Name
-}
-
-// Phase B: breadth-first search over canonical states (Fingerprint) to the given depth. A successor
-// is computed by replaying the shortest path to the state on a fresh instance plus one op.
-func (c *Check) RunBFS(h *Harness, depth int, maxStates int) {
-	A := h.Alphabet
-	c.Bound("phaseB_depth", depth)
-	c.Bound("phaseB_max_states", maxStates)
-	type node struct{ path []int }
-	seen := map[string]struct{}{}
-	var seenMu sync.Mutex
-	root := h.New()
-	fp0 := root.Fingerprint()
-	Guard(root.Close)
-	if fp0 == "" {
-		return
-	}
-	seen[fp0] = struct{}{}
-	frontier := []node{{}}
-	var states, trans int64 = 1, 0
-	levelReached := 0
-	for d := 0; d < depth && len(frontier) > 0; d++ {
-		var next []node
-		var nextMu sync.Mutex
-		capped := false
-		ParallelFor(len(frontier)*len(A), func(k int) {
-			if c.Expired() {
-				return
-			}
-			n := frontier[k/len(A)]
-			ai := k % len(A)
-			inst := h.New()
-			path := make([]Op, 0, len(n.path)+1)
-			var got, want string
-			failAt := -1
-			pan := Guard(func() {
-				for _, i := range n.path {
-					path = append(path, A[i])
-					got, want = inst.Apply(A[i])
-					if got != want && !c.tolerated(h, path, got, want) {
-						// prefix was clean when first explored; divergence here is nondeterminism
-						failAt = len(path)
-						return
-					}
-				}
-				path = append(path, A[ai])
-				got, want = inst.Apply(A[ai])
-				if got != want && !c.tolerated(h, path, got, want) {
-					failAt = len(path)
-				}
-			})
-			atomic.AddInt64(&trans, 1)
-			if pan != "" {
-				failAt = len(path)
-				got, want = pan, "no panic"
-			}
-			if failAt > 0 {
-				p := append([]Op(nil), path[:failAt]...)
-				c.Violate(classify(h, p, got, want), p, got, want)
-				Guard(inst.Close)
-				return
-			}
-			fp := inst.Fingerprint()
-			Guard(inst.Close)
-			c.Outcome(got)
-			seenMu.Lock()
-			_, ok := seen[fp]
-			if !ok {
-				if len(seen) >= maxStates {
-					capped = true
-					seenMu.Unlock()
-					return
-				}
-				seen[fp] = struct{}{}
-			}
-			seenMu.Unlock()
-			if !ok {
-				c.Distinct(fp)
-				atomic.AddInt64(&states, 1)
-				np := append(append([]int(nil), n.path...), ai)
-				nextMu.Lock()
-				next = append(next, node{np})
-				nextMu.Unlock()
-				if atomic.LoadInt64(&states)%512 == 0 {
-					c.Sample(PathString(path))
-				}
-			}
-		})
-		if capped {
-			c.NotExhaustive(fmt.Sprintf("phase B state cap %d hit at depth %d", maxStates, d+1))
-		}
-		if c.Expired() {
-			break
-		}
-		// deterministic order of the next frontier
-		sort.Slice(next, func(i, j int) bool {
-			a, b := next[i].path, next[j].path
-			for k := range a {
-				if a[k] != b[k] {
-					return a[k] < b[k]
-				}
-			}
-			return false
-		})
-		frontier = next
-		levelReached = d + 1
-	}
-	c.AddStates(states)
-	c.AddTransitions(trans)
-	c.AddEval(trans)
-	c.Extra("phaseB_states", states)
-	c.Extra("phaseB_transitions", trans)
-	c.Extra("phaseB_depth_completed", levelReached)
-	c.Extra("phaseB_frontier_left", len(frontier))
 }
 
 // runPath executes path on a fresh instance; returns the 1-based index of the first non-tolerated
